@@ -75,6 +75,13 @@ def sweep():
                                                   ln := pt.App.box_length(arg_b()), pt.Pop(ln.value()), pt.Pop(pt.App.box_delete(arg_b())), pt.Int(1)),
         "Box extract/replace": lambda: pt.Seq(pt.Pop(pt.App.box_extract(arg_b(), pt.Int(0), pt.Int(1))), pt.App.box_replace(arg_b(), pt.Int(0), arg_b()), pt.Int(1)),
         "Box splice/resize": lambda: pt.Seq(pt.App.box_splice(arg_b(), pt.Int(0), pt.Int(1), arg_b()), pt.App.box_resize(arg_b(), pt.Int(9)), pt.Int(1)),
+        # one opcode per entry, so that each meets its own version / mode gate
+        "Box create": lambda: val(pt.App.box_create(arg_b(), pt.Int(8))), "Box put": lambda: pt.Seq(pt.App.box_put(arg_b(), arg_b()), pt.Int(1)),
+        "Box get": lambda: val(pt.Seq(mv := pt.App.box_get(arg_b()), mv.value())), "Box length": lambda: val(pt.Seq(mv := pt.App.box_length(arg_b()), mv.value())),
+        "Box delete": lambda: val(pt.App.box_delete(arg_b())), "Box extract": lambda: val(pt.App.box_extract(arg_b(), pt.Int(0), pt.Int(1))),
+        "Box replace": lambda: pt.Seq(pt.App.box_replace(arg_b(), pt.Int(0), arg_b()), pt.Int(1)),
+        "Box splice": lambda: pt.Seq(pt.App.box_splice(arg_b(), pt.Int(0), pt.Int(1), arg_b()), pt.Int(1)),
+        "Box resize": lambda: pt.Seq(pt.App.box_resize(arg_b(), pt.Int(9)), pt.Int(1)),
         "Block.seed": lambda: val(pt.Block.seed(pt.Int(1))), "Block.timestamp": lambda: val(pt.Block.timestamp(pt.Int(1))),
         "JsonRef.as_uint64": lambda: val(pt.JsonRef.as_uint64(arg_b(), arg_b())), "Base64Decode.std": lambda: val(pt.Base64Decode.std(arg_b())),
         "EcdsaVerify": lambda: val(pt.EcdsaVerify(pt.EcdsaCurve.Secp256k1, arg_b(), arg_b(), arg_b(), (arg_b(), arg_b()))),
